@@ -34,6 +34,9 @@ let step r =
   | "assign" -> let i = nat r in let j = nat r in let v = num r in UAssign (i, j, v)
   | "resize" -> let i = nat r in let j = nat r in UResize (i, j)
   | "delrow" -> UDelRow (nat r) | "delcol" -> UDelCol (nat r)
+  (* a call of another facility of the library on its own argument: the object (>= 1 row, the generator sees to it) keeps its
+     entries - in the model's terms the exchange of row 0 with itself *)
+  | "lib" -> let _ = word r in let _ = table r in USwap (nat_of_int 0, nat_of_int 0)
   | o -> raise (Out ("MODELERR unknown_step_" ^ o)))
 
 let handler r =
